@@ -128,6 +128,8 @@ static void h_rand(int purpose, unsigned char *buf, size_t len)
     case ARES_VERIF_RAND_ROTATE: {
       int v  = policy_draw(w, purpose, w->cfg->nservers);
       buf[0] = (unsigned char)v;
+      w->rot_draws++;
+      w->rot_last = v;
       break;
     }
     case ARES_VERIF_RAND_PROBE: {
@@ -470,6 +472,7 @@ static ares_ssize_t s_sendto(ares_socket_t fd, const void *buf, size_t len, int,
     errno = EBADF;
     return -1;
   }
+  s->send_calls++;
   if (take_fault(w, FS_SEND_REFUSED)) {
     w->log(fmt("send(%d) -> ECONNREFUSED", fd));
     w->net_fails.push_back({ ++w->seq, s->server, fd });
@@ -566,6 +569,8 @@ void World::record_tx(VSock &s, const Bytes &msg)
   t.id     = (int)txs.size();
   t.fd     = s.fd;
   t.sock_serial = s.created_seq;
+  t.rot_draws   = rot_draws;
+  t.rot_last    = rot_last;
   t.server = s.server;
   t.tcp    = s.tcp;
   t.msg    = msg;
@@ -1280,6 +1285,17 @@ void World::do_io(bool one)
 {
   std::vector<int> rd = ready_fds(false);
   if (rd.empty() || !ch) return;
+  // sockets about to be serviced for writability: what was on the wire before
+  struct WSnap {
+    int serial, send_calls;
+  };
+  std::vector<WSnap> wsnap;
+  for (size_t i = 0; i + 1 < rd.size(); i += 2)
+    if (rd[i + 1] & 2) {
+      VSock *x = sock(rd[i]);
+      if (x) wsnap.push_back({ x->created_seq, x->send_calls });
+      if (one) break;
+    }
   in_lib = true;
   if (cfg->sock_state_cb) {
     if (one) {
@@ -1313,6 +1329,19 @@ void World::do_io(bool one)
     ares_process(ch, &r, &wset);
   }
   in_lib = false;
+  // C10: a write event that was serviced either makes the library send (successfully or not) or ends its interest in
+  // writability. Interest that survives a service during which the library did not even attempt a send makes an event
+  // loop spin on that socket.
+  if (ch && !cfg->pending_write_cb) {
+    (void)ready_fds(false); // legacy applications: refresh what the library asks to watch
+    for (auto &ws : wsnap) {
+      VSock *x = socks[(size_t)ws.serial].get();
+      if (!x->open || !x->ann_w || !writable(*x)) continue;
+      if (x->send_calls != ws.send_calls) continue;
+      violate("C10:interest:write-kept-with-nothing-to-write",
+              fmt("descriptor %d (%s) was serviced as writable, the library attempted no send, yet it still asks to be told when the descriptor is writable", x->fd, x->tcp ? "tcp" : "udp"));
+    }
+  }
 }
 
 bool World::timer_enabled()
